@@ -6,7 +6,8 @@
   Part 2: for every tree, start node, environment and parameter set — never a panic, the doctype,
   tags (`>` only, end tag ⇔ not void), unprefixed HTML / MathML / SVG names, text and attribute
   escaping, refusal of processing instructions containing `>`.
-  Defects kept visible: `C19_xhtml_const_defect`, `C19_embedded_defect`.
+  Defects kept visible: `C19_xhtml_const_defect` (so "XHTML_NS" below is the namespace the crate's
+  constant names, the `https` spelling: the partial form of the property), `C19_embedded_defect`.
 -/
 import XotModel.Lemmas.Html5Esc
 import XotModel.Lemmas.Html5Names
@@ -98,10 +99,8 @@ theorem C19_tables_nodup :
     html5Names.Nodup ∧ voidNames.Nodup ∧ phrasingContentNames.Nodup ∧ formattedNames.Nodup ∧
     noEscapeNames.Nodup := by decide
 
-/-! ## Part 2: the serialiser
-
-Token-level theorems quantify over *every* call of `render_output` (any state of the name stack,
-any node, any event), hence over every token of every serialisation. -/
+/-! ## Part 2: the serialiser.  Token-level theorems quantify over *every* call of `render_output`
+(any state of the name stack, any node, any event), hence over every token of every serialisation. -/
 
 /-! ### Never panics -/
 
